@@ -357,6 +357,119 @@ def strict_guard(ctx, rule='C16.O6'):
 
 
 
+def check_counts_runs(ctx, rule='C16.check-counts-runs'):
+    """the built-in check ("strict mode") accounts for the overflow pages of EVERY page it visits, whatever its kind: which kinds can span several pages
+    depends on the configured page size and on key / value sizes (a branch with long keys at a small page size does), so a per-kind exemption makes the check reject a valid commit
+    under some option combinations only"""
+    res = []
+    try:
+        (chk,) = ctx.need('check-role')
+    except AnchorError as e:
+        return [unresolved(rule, str(e))]
+    fn = ctx.x(chk)
+    du = ctx.du(fn)
+    sites = []
+    for bb, t, c in calls_named(ctx.facts, fn, 'remove', 'take', 'insert'):
+        if 'Set' not in strip_generics(c['path']) and 'Map' not in strip_generics(c['path']):
+            continue
+        if len(t['args']) < 2:
+            continue
+        _, atoms = du.slice_operand(t['args'][1])
+        if has_field(atoms, 'Page', 'overflow'):
+            sites.append(bb)
+    f = floor(rule, 'overflow-page bookkeeping sites in the built-in check', len(sites), 1)
+    if f:
+        return [f]
+    for bb in sites:
+        kinds = []
+        ksw = {}
+        for a in sorted(fn.reachable_blocks()):
+            at = fn.term(a)
+            if at['k'] != 'switch':
+                continue
+            _, da = du.slice_operand(at['discr'])
+            if has_field(da, 'Page', 'page_type'):
+                ksw[a] = {x[1] for x in da if x[0] == 'call' and strip_generics(x[2]).endswith('Pages::page')}
+        # `matches!(kind, A | B)`: a bool set to constants under a kind switch, then tested
+        cd = fn.control_deps()
+        for a in sorted(fn.reachable_blocks()):
+            at = fn.term(a)
+            l = op_local(at['discr']) if at['k'] == 'switch' else None
+            if l is None or a in ksw:
+                continue
+            ds = du.defs.get(l, [])
+            if ds and all(si is not None and fn.blocks[b]['stmts'][si]['rv']['k'] == 'use' and fn.blocks[b]['stmts'][si]['rv']['op']['k'] == 'const' for b, si in ds):
+                for b, si in ds:
+                    for (a2, sx) in cd.get(b, ()):
+                        if a2 in ksw:
+                            ksw[a] = ksw[a2]
+        for a, loaders in sorted(ksw.items()):
+            # within one visit: paths that load the next page (a later iteration of the walk) do not count
+            rs = [bb in fn.reach_from([sx], avoid=loaders) for sx in fn.succ(a)]
+            if any(rs) and not all(rs):
+                kinds.append(fn.loc(a))
+        if kinds:
+            res.append(bad(rule, '%s | overflow pages counted only for some page kinds' % chk.qual,
+                           'the check accounts for a page\'s overflow run at %s only under a test of its kind (%s): a page of another kind that spans several pages -- possible at small page '
+                           'sizes -- leaves its overflow pages unaccounted, and strict mode rejects a valid commit' % (fn.loc(bb), kinds[0]), where=fn.loc(bb)))
+        else:
+            res.append(ok(rule, 'overflow pages are accounted for at %s independently of the page kind' % fn.loc(bb), sites=1))
+    return res
+
+
+def _from_file_length(ctx, fn, operand, depth=0, seen=None):
+    """does the operand derive from the file's own length (File::metadata().len()), on every call path that supplies it?"""
+    seen = seen or set()
+    du = ctx.du(fn)
+    _, atoms = du.slice_operand(operand)
+    if any(a[0] == 'call' and strip_generics(a[2]) in ('std::fs::File::metadata', 'std::fs::Metadata::len') for a in atoms):
+        return True
+    args = [a[1] for a in atoms if a[0] == 'arg']
+    if not args or depth > 5 or fn.path in seen:
+        return False
+    from util import all_call_sites
+    sites = all_call_sites(ctx.facts, fn)
+    if not sites:
+        return False
+    for (cf, cb, ct) in sites:
+        if not any(i - 1 < len(ct['args']) and _from_file_length(ctx, cf, ct['args'][i - 1], depth + 1, seen | {fn.path}) for i in args):
+            return False
+    return True
+
+
+def map_whole_file(ctx, rule='C16.map-whole-file'):
+    """every memory map covers the whole file: an explicit length or offset handed to the map builder must be the file's own length, never a value computed from the
+    options or from the transaction (a map that ends before the file does makes pages unreachable under that option only)"""
+    res = []
+    F = ctx.facts
+    n = 0
+    nmap = 0
+    for fn in sorted(F.fns, key=lambda f: f.path):
+        for bb in sorted(fn.reachable_blocks()):
+            t = fn.term(bb)
+            c = callee_of(t) if t['k'] == 'call' else None
+            if not c:
+                continue
+            sp = strip_generics(c['path'])
+            if sp.startswith('memmap2::') and last_seg(sp).startswith('map'):
+                nmap += 1
+            if sp not in ('memmap2::MmapOptions::len', 'memmap2::MmapOptions::offset'):
+                continue
+            n += 1
+            if _from_file_length(ctx, fn, t['args'][-1]):
+                res.append(ok(rule, 'the explicit map %s at %s is the file\'s own length' % (last_seg(sp), fn.loc(bb)), sites=1))
+            else:
+                res.append(bad(rule, '%s | map %s not the file length' % (fn.qual, last_seg(sp)),
+                               'the memory map built in %s gets an explicit %s at %s that does not come from the file\'s metadata on every call path: the map can end before the file does, '
+                               'and pages beyond it are out of reach' % (fn.qual, last_seg(sp), fn.loc(bb)), where=fn.loc(bb)))
+    f = floor(rule, 'memory-map constructions in the crate', nmap, 1)
+    if f:
+        res.append(f)
+    elif n == 0:
+        res.append(ok(rule, 'none of the %d map constructions passes an explicit length or offset (memmap2 then maps the whole file)' % nmap, sites=nmap))
+    return res
+
+
 def pagesize_fields(ctx):
     """fields that hold a page size: every field named `pagesize`, plus (fixpoint) fields that are assigned a plain copy / cast of one"""
     if hasattr(ctx, '_ps_fields'):
@@ -607,6 +720,8 @@ def run(ctx, tier):
     results += align_guard(ctx)
     results += ob['O6']
     results += strict_guard(ctx)
+    results += check_counts_runs(ctx)
+    results += map_whole_file(ctx)
     results += grow(ctx)
     results += no_pow2_arith(ctx)
     results += remap_always(ctx)
